@@ -38,3 +38,4 @@ def rules(ctx):
     S.commit_mode_setter_rules(ctx)
     S.cache_reset_rules(ctx)
     S.handle_close_rules(ctx)
+    S.state_writer_rules(ctx)
